@@ -43,9 +43,14 @@ Inductive op :=
 | OTakeAxisPos (zs : list Z) (r : axref)
 | OCompressAxis (m : list bool) (r : axref)
 | OInterp (k : kind) (news : list label) (r : axref) (left right : cell)
+| OInterpLike (others : list (string * kind * list label)) (left right : cell)
 | OFlatten (rs : list axref) (as_set : bool) (insert : option Z)
 | OUnflatten
 | OReshape (newdims : list string)
+| ORenameAxis (r : axref) (n : string)            (* a.axes[d].name = n   (in place) *)
+| OSetLabel (r : axref) (i : Z) (l : label) (lk : kind)   (* a.axes[d][i] = label *)
+| OSetDims (ns : list string)                     (* a.dims = (...) *)
+| OIdentity                                       (* queries that only fill caches; Dataset insertion + extraction *)
 .
 
 Definition dflt_arr : darr := Arr [] [] KF [CNaN] [].
@@ -91,9 +96,25 @@ Definition apply_op (ins : list darr) (o : op) (a : darr) : res value :=
   | OTakeAxisPos zs r => arr1 (take_axis_position zs r) a
   | OCompressAxis m r => arr1 (fun a => let! i := axis_info a r in compress_axis m i a) a
   | OInterp k news r l rr => arr1 (interp_axis k news r l rr) a
+  | OInterpLike others l rr => arr1 (interp_like others l rr) a
   | OFlatten rs st ins => arr1 (flatten rs st ins) a
   | OUnflatten => Ok (VArr (unflatten a))
   | OReshape nd => arr1 (reshape nd) a
+  | ORenameAxis r n =>
+      let! i := axis_info a r in
+      if String.eqb n "" then Err ValueError
+      else Ok (VArr (mkarr (set_nth i (with_name (nth i (axes a) dax0) n) (axes a)) (vals a) (attrs a)))
+  | OSetLabel r i l lk =>
+      let! j := axis_info a r in
+      let ax := nth j (axes a) dax0 in
+      let! p := py_index (alen ax) i in
+      Ok (VArr (mkarr (set_nth j {| aname := aname ax; akind := cast_kind (akind ax) lk; alab := set_nth p l (alab ax);
+                                    aattrs := aattrs ax; amem := amem ax |} (axes a)) (vals a) (attrs a)))
+  | OSetDims ns =>
+      if negb (List.length ns =? List.length (axes a)) then Err ValueError
+      else if existsb (String.eqb "") ns then Err ValueError
+      else Ok (VArr (mkarr (map (fun p => with_name (fst p) (snd p)) (combine (axes a) ns)) (vals a) (attrs a)))
+  | OIdentity => Ok (VArr a)
   end.
 
 (* a program: ops applied in sequence to input 0; every intermediate result must be an array *)
